@@ -342,7 +342,15 @@ def all_resources(rep, idx):
     for v, frm, gen, ln in c.t.yields:
         v = deref_tables(c, c.norm(v))
         tab = guard_table(c, gen, ln, atoms)
-        if v[0] == 'call' and ir.show(v[1]).endswith("ResourceInfo") and not translate_owned(idx) and \
+        replay = [fr for fr in gen if fr[0] == 'for' and fr[1] != L.id and fr[1] in c.t.loops and
+                  c.norm(c.t.loops[fr[1]].iter)[0] == 'attr' and c.norm(c.t.loops[fr[1]].iter)[1] == ('name', 'self') and
+                  not any(fr2[0] == 'for' and fr2[1] == L.id for fr2 in gen)]
+        if replay:
+            # results replayed from something stored on the map (a memo of an earlier traversal), outside the pass over the tables
+            other.append(v)
+            rep.unk("C03.1", site, f"yield {ir.show(v)[:60]}", f"results are replayed from {ir.show(c.norm(c.t.loops[replay[0][1]].iter))}, a record of an "
+                    "earlier traversal: whether it still agrees with the tables is not decided")
+        elif v[0] == 'call' and ir.show(v[1]).endswith("ResourceInfo") and not translate_owned(idx) and \
                 any(fr[0] == 'for' and fr[1] != L.id for fr in gen):
             through.append((v, tab, gen))               # built in place, inside the loop over the window's own resources
         elif v[0] == 'call' and ir.show(v[1]).endswith("ResourceInfo"):
@@ -368,8 +376,11 @@ def all_resources(rep, idx):
              f"translated yields under {[shows(d_[1]) for d_ in through]}",
              wrong=None if und else "the guard of the window-contents result is not `entry is in the window table` (and not a resource)")
     # an entry in neither table is an internal error
-    rep.check(assert_fails_somewhere(c, atoms, (False, False)), "C03.3", site, "an entry in neither table is an internal error (a failing assert)",
-              "no assert fails for an entry that is in neither table", nontrivial=False)
+    if und and not assert_fails_somewhere(c, atoms, (False, False)):
+        rep.unk("C03.3", site, "an entry in neither table is an internal error (a failing assert)", "not decided for this form of the traversal")
+    else:
+        rep.check(assert_fails_somewhere(c, atoms, (False, False)), "C03.3", site, "an entry in neither table is an internal error (a failing assert)",
+                  "no assert fails for an entry that is in neither table", nontrivial=False)
     if ok:
         v = direct[0][0]
         want = c.parse("ResourceInfo(obj, (self._resources[id(obj)][1],), rng.start, rng.stop, self.data_width)", env)
